@@ -382,11 +382,12 @@ func (rl *respDeserializer) peekBulkLine(length int) (line respBulkString, valid
 		panic("already determined the next line")
 	}
 
-	rl.nextPos = rl.pos + length + 2
-	if rl.nextPos > len(rl.content) {
+	if length < 0 || length > len(rl.content)-rl.pos-2 {
+		// not all there yet (also keeps pos+length+2 from overflowing)
 		valid = false
 		return
 	}
+	rl.nextPos = rl.pos + length + 2
 
 	if rl.content[rl.nextPos-2] != '\r' || rl.content[rl.nextPos-1] != '\n' {
 		rl.l.Errorf("bulk line does not have expected ending on line %d", rl.lineNumber)
